@@ -466,7 +466,7 @@ impl ScionPath {
                 expiration,
                 mtu,
                 interfaces: Some(interface_meta),
-                epic_auth: None,
+                epic_auth: rpc_path.epic_auths.map(metadata::epic::EpicAuths::from_rpc),
                 notes,
             }
         };
@@ -517,8 +517,13 @@ impl ScionPath {
                     })
                     .collect();
 
+                // One entry per link between consecutive interfaces: N-1 entries for N interfaces,
+                // the last interface (destination ingress) has no outgoing link.
+                let link_count = if_meta.len().saturating_sub(1);
+
                 rpc_path.latency = if_meta
                     .iter()
+                    .take(link_count)
                     .map(|latency| {
                         match latency.latency {
                             Some(latency) => {
@@ -542,6 +547,7 @@ impl ScionPath {
 
                 rpc_path.bandwidth = if_meta
                     .iter()
+                    .take(link_count)
                     .map(|meta| meta.bandwidth.unwrap_or(0))
                     .collect();
 
@@ -555,15 +561,49 @@ impl ScionPath {
                     })
                     .collect();
 
-                rpc_path.link_type = if_meta
+                // Inter-AS links start at the even indices (0, 2, 4, ...) of the interfaces:
+                // entry i describes the link between interfaces 2*i and 2*i+1.
+                if if_meta
                     .iter()
-                    .map(|meta| {
-                        match &meta.link {
-                            Some(LinkMeta::Egress(link_type)) => link_type.to_i32(),
-                            _ => LinkType::Unset.to_i32(),
-                        }
-                    })
-                    .collect();
+                    .step_by(2)
+                    .any(|meta| matches!(meta.link, Some(LinkMeta::Egress(_))))
+                {
+                    rpc_path.link_type = if_meta
+                        .iter()
+                        .step_by(2)
+                        .map(|meta| {
+                            match &meta.link {
+                                Some(LinkMeta::Egress(link_type)) => link_type.to_i32(),
+                                _ => LinkType::Unset.to_i32(),
+                            }
+                        })
+                        .collect();
+                }
+
+                // Intra-AS links start at the odd indices (1, 3, 5, ...) of the interfaces, except
+                // for the last interface: entry i describes the hop between interfaces 2*i+1 and
+                // 2*i+2.
+                let intra_count = (if_meta.len() / 2).saturating_sub(1);
+                if if_meta
+                    .iter()
+                    .skip(1)
+                    .step_by(2)
+                    .take(intra_count)
+                    .any(|meta| matches!(meta.link, Some(LinkMeta::Ingress { .. })))
+                {
+                    rpc_path.internal_hops = if_meta
+                        .iter()
+                        .skip(1)
+                        .step_by(2)
+                        .take(intra_count)
+                        .map(|meta| {
+                            match &meta.link {
+                                Some(LinkMeta::Ingress { internal_hop_count }) => *internal_hop_count,
+                                _ => 0,
+                            }
+                        })
+                        .collect();
+                }
 
                 // collect notes if available, must be one per AS (total_interfaces / 2 + 1)
                 let expected_count_ases = if_meta.len() / 2 + 1;
